@@ -44,6 +44,15 @@ def main():
             na.append({"property_id": pid, "reason": reason or NOT_APPLICABLE.get(pid, PENDING)})
             continue
         served.append(pid)
+        kinds = ""
+        evp = os.path.join(VERIF, "evidence", f"{pid}.json")
+        if os.path.isfile(evp):
+            try:
+                bk = json.load(open(evp))["coverage"].get("obligations_by_kind") or {}
+                kinds = " Obligations by kind of deciding rule at the last run (kinds defined in DESIGN.md 10.3): " + ", ".join(
+                    f"{k} {v['obligations']} ({v['rules']} rules)" for k, v in bk.items()) + "."
+            except Exception:
+                kinds = ""
         checks.append({
             "property_id": pid,
             "quick_cmd": f"/venv/bin/python sa/check.py --property {pid} --tier quick",
@@ -53,14 +62,15 @@ def main():
             "engine": "sa",
             "level_claimed": {
                 "category": "other",
-                "text": "Static analysis (no execution, no solver) of /repo's current source. " + getattr(mod, "EXPLANATION", ""),
+                "text": "Static analysis of /repo's current source (the repository is never imported or executed by CPython; no "
+                        "solver). " + getattr(mod, "EXPLANATION", ""),
                 "design_ref": f"DESIGN.md section 5, {pid}",
             },
-            "level_note": getattr(mod, "TRUSTED", "") or (
+            "level_note": (getattr(mod, "TRUSTED", "") + kinds) if getattr(mod, "TRUSTED", "") else (
                 "Trusted base: CPython's ast parser; the sa/ engine (CFG with exception edges, dominators, effects "
                 "extraction); the frozen rule-instance tables in sa/props/" + pid.lower() + ".py confirmed by reading; "
                 "opaque call-outs are assumed to be the only re-entry points. Decides the named structural clauses, not the "
-                "whole behavioural statement."),
+                "whole behavioural statement.") + kinds,
             "technique": getattr(mod, "TECHNIQUE", "static analysis: AST/CFG rules (dominance, must-pass-through, who-may-write, table agreement)"),
         })
     man = {
@@ -80,7 +90,10 @@ def main():
             "kind_free_text": "repository-specific static analyser: stdlib ast, own CFG with exception edges and duplicated "
                               "finally bodies, dominators / must-pass-through queries, attribute-effects extraction, small "
                               "abstract domains (byte sets, escaper rewrite systems, linear comparison normal forms, finite "
-                              "truth tables); mutation self-validation through an in-memory overlay in the thorough tier",
+                              "truth tables), whitelisted AST evaluators/interpreters of the checker for finite-exhaustive and "
+                              "bounded evaluation of repository functions (every rule declares its kind: structural / "
+                              "finite-exhaustive / bounded; the evidence counts obligations per kind); mutation self-validation "
+                              "through an in-memory overlay in the thorough tier",
         }],
         "checks": checks,
         "not_applicable": na,
